@@ -230,7 +230,25 @@ pub fn c13(ep: &EnergyPerformance) -> Vec<(&'static str, String)> {
         if !eq(ep.rer, b.ren / tot) { out.push(("C13.rer", format!("RER {} != ren/(ren+nren) = {}", ep.rer, b.ren / tot))); }
         else if !(ep.rer >= -1e-5 - leaf::noise() as f32 / tot && ep.rer <= 1.0 + 1e-5 + leaf::noise() as f32 / tot) { out.push(("C13.range", format!("RER {} outside [0,1] (ren {} nren {})", ep.rer, b.ren, b.nren))); }
         if ep.rer_onst < -1e-5 { out.push(("C13.onst_nonneg", format!("RER_onst {} negative", ep.rer_onst))); }
-        if !le(ep.rer_onst, ep.rer_nrb) { out.push(("C13.nested", format!("perimeters not nested: RER_onst {} > RER_nrb {} (RER {})", ep.rer_onst, ep.rer_nrb, ep.rer))); }
+        if !le(ep.rer_onst, ep.rer_nrb) {
+            // known finding D4 is about buildings that EXPORT on-site / cogenerated electricity: some step in which the declared production exceeds the declared
+            // EPB electricity use (auxiliaries included, whatever service they were given), or load matching keeping part of the production out of the EPB uses.
+            // A nesting failure of a building without such a surplus is something else and is reported as such.
+            let n = ep.components.data.iter().map(|c| match c { Energy::Used(e) => e.values.len(), Energy::Prod(e) => e.values.len(), Energy::Aux(e) => e.values.len(), Energy::Out(e) => e.values.len() }).max().unwrap_or(0);
+            let (mut pr, mut us) = (vec![0.0f32; n], vec![0.0f32; n]);
+            for c in &ep.components.data {
+                match c {
+                    Energy::Prod(e) if e.source == ProdSource::EL_INSITU || e.source == ProdSource::EL_COGEN => for (i, v) in e.values.iter().enumerate() { pr[i] += v; },
+                    Energy::Used(e) if e.carrier == Carrier::ELECTRICIDAD && e.service.is_epb() => for (i, v) in e.values.iter().enumerate() { us[i] += v; },
+                    Energy::Aux(e) => for (i, v) in e.values.iter().enumerate() { us[i] += v; },
+                    _ => {}
+                }
+            }
+            let surplus = (0..n).any(|i| pr[i] > us[i] + tol(us[i]));
+            let matching = ep.balance_cr.get(&Carrier::ELECTRICIDAD).map(|b| b.f_match.iter().any(|f| *f < 1.0 - 1e-6)).unwrap_or(false);
+            let clause = if surplus || matching { "C13.nested" } else { "C13.nested_without_export" };
+            out.push((clause, format!("perimeters not nested: RER_onst {} > RER_nrb {} (RER {})", ep.rer_onst, ep.rer_nrb, ep.rer)));
+        }
         if !le(ep.rer_nrb, ep.rer) { out.push(("C13.nrb_le_rer", format!("RER_nrb {} > RER {}", ep.rer_nrb, ep.rer))); }
         // contract of ren_onst_nrb
         let el = ep.balance_cr.get(&Carrier::ELECTRICIDAD);
@@ -419,8 +437,30 @@ pub fn check(pid: &str, seed: u64) -> Value {
                                 format!("{}{}{}", head, vals.split(',').map(|v| v.trim().parse::<f32>().map(|x| format!("{}", 2.0 * x)).unwrap_or(v.to_string())).collect::<Vec<_>>().join(","), comment)
                             } else { l.to_string() }).collect();
                             variants.push((-2.0, doubled.join("\n")));
+                            // ... or a second field identical to the first one, declared on the next line under the same id
+                            let twice: Vec<String> = t.lines().flat_map(|l| if l.contains("PRODUCCION,EL_INSITU") { vec![l.to_string(), l.to_string()] } else { vec![l.to_string()] }).collect();
+                            variants.push((-3.0, twice.join("\n")));
                         }
-                        for (d, more) in variants {
+                        // two fields under one id, the second one kWh smaller in its first producing step; then raised to the size of the first (two identical lines)
+                        let mut own_base: Option<(String, String)> = None;
+                        if let Some(l) = t.lines().find(|l| l.contains("PRODUCCION,EL_INSITU") && !l.contains('#')) {
+                            let i = l.find("EL_INSITU,").unwrap() + "EL_INSITU,".len();
+                            let (head, tail) = l.split_at(i);
+                            let vals: Vec<f32> = tail.split(',').filter_map(|v| v.trim().parse::<f32>().ok()).collect();
+                            if let Some(p) = vals.iter().position(|v| *v >= 1.0) {
+                                let mut less = vals.clone(); less[p] -= 1.0;
+                                let fmt = |v: &Vec<f32>| v.iter().map(|x| format!("{}", x)).collect::<Vec<_>>().join(",");
+                                let smaller = format!("{}{}", head, fmt(&less));
+                                let base2: Vec<String> = t.lines().flat_map(|x| if x == l { vec![x.to_string(), smaller.clone()] } else { vec![x.to_string()] }).collect();
+                                let more2: Vec<String> = t.lines().flat_map(|x| if x == l { vec![x.to_string(), x.to_string()] } else { vec![x.to_string()] }).collect();
+                                own_base = Some((base2.join("\n"), more2.join("\n")));
+                            }
+                        }
+                        let e0_main = e0;
+                        let mut runs: Vec<(f32, cteepbd::types::EnergyPerformance, String)> = vec![];
+                        if let Some((b2, m2)) = own_base { if let Ok(eb) = run(&tc(&b2)) { runs.push((1.0, eb, m2)); } }
+                        for (d, more) in variants { runs.push((d, e0_main.clone(), more)); }
+                        for (d, e0, more) in runs {
                             evals += 1;
                             if let Ok(e1) = run(&tc(&more)) {
                                 let (a0, a1, b0, b1) = (e0.balance.we.a, e1.balance.we.a, e0.balance.we.b, e1.balance.we.b);
@@ -498,7 +538,28 @@ pub fn check(pid: &str, seed: u64) -> Value {
                 "C12" => {
                     if lm { continue; }
                     evals += 2;
-                    if let (Ok(a), Ok(b)) = (run(&tcase(t, 0.0, 1.0, true)), run(&tcase(t, 0.0, 1.0, false))) { nontrivial += 1; if let Some(w) = c12(&a, &b) { failures.push(json!({"clause": "C12", "components": t, "what": w})); } }
+                    if let (Ok(a), Ok(b)) = (run(&tcase(t, 0.0, 1.0, true)), run(&tcase(t, 0.0, 1.0, false))) {
+                        nontrivial += 1;
+                        if let Some(w) = c12(&a, &b) { failures.push(json!({"clause": "C12", "components": t, "what": w})); }
+                        // "the on-site production of that step": every PRODUCCION line of the file, read here line by line, is in the balance
+                        for (tag, src) in [("EL_INSITU", ProdSource::EL_INSITU), ("EL_COGEN", ProdSource::EL_COGEN)] {
+                            let mut want: Vec<f32> = vec![];
+                            for l in t.lines() {
+                                let l = l.split('#').next().unwrap_or("");
+                                let f: Vec<&str> = l.split(',').map(|x| x.trim()).collect();
+                                if let Some(i) = f.iter().position(|x| *x == "PRODUCCION") {
+                                    if f.get(i + 1) == Some(&tag) {
+                                        for (j, v) in f[i + 2..].iter().enumerate() { if let Ok(x) = v.parse::<f32>() { if want.len() <= j { want.resize(j + 1, 0.0); } want[j] += x; } }
+                                    }
+                                }
+                            }
+                            if want.iter().all(|v| *v == 0.0) { continue; }
+                            let got = b.balance_cr.get(&Carrier::ELECTRICIDAD).and_then(|x| x.prod.by_src_t.get(&src)).cloned().unwrap_or_default();
+                            if got.len() != want.len() || got.iter().zip(want.iter()).any(|(g, w)| !eq(*g, *w)) {
+                                failures.push(json!({"clause": "C12", "components": t, "what": format!("the file declares {} production {:?}, the electricity balance works with {:?}", tag, want, got)}));
+                            }
+                        }
+                    }
                 }
                 _ => {}
             }
